@@ -47,11 +47,13 @@ SeqsUpTo(S, n) == IF n = 0 THEN {<<>>} ELSE SeqsUpTo(S, n - 1) \cup {Append(s, S
 \* an empty value is allowed (with blank: the value is a single blank)
 Values == [val : SeqsUpTo(ValToks, MaxVal), blank : BOOLEAN]
 Tables == UNION {[D -> Values] : D \in SUBSET Names}
+\* the sources (overridden by a fixed list for the longer programs: for / case)
+Sources == SeqsUpTo(SrcToks, MaxSrc)
 
 Tok(t, org, chk) == [tok |-> t, org |-> org, chk |-> chk]
 
 Init == /\ table \in Tables
-        /\ src \in SeqsUpTo(SrcToks, MaxSrc)
+        /\ src \in Sources
         /\ inp = [i \in 1..Len(src) |-> Tok(src[i], {}, FALSE)]
         /\ out = <<>> /\ cmdpos = TRUE /\ respos = TRUE /\ steps = 0
 
